@@ -78,8 +78,9 @@ def main():
     dst = os.path.join(VERIF, 'seeded', name)
     os.makedirs(dst, exist_ok=True)
     if res.get('confirmed'):
-        shutil.copy(patch, os.path.join(dst, 'patch.diff'))
-        shutil.copy(demo, os.path.join(dst, 'demo.py'))
+        for src, nm in ((patch, 'patch.diff'), (demo, 'demo.py')):
+            if os.path.abspath(src) != os.path.abspath(os.path.join(dst, nm)):
+                shutil.copy(src, os.path.join(dst, nm))
         json.dump({'breaks_property': prop, 'needs_to_manifest': (meta.get('needs_to_manifest') or meta.get('what_it_needs_to_manifest')),
                    'what_it_changes': meta.get('what_it_changes'), 'files_changed': meta.get('files_changed'),
                    'confirmed_by': 'tools/seed_eval.py: patch applies on /repo HEAD in a scratch worktree; suite = %s; demo exit clean=%s patched=%s'
